@@ -630,6 +630,7 @@ def _optimizers_interpreted(ctx, rid, repo):
             rec2 = []
             ext_ = dict(_lnp.externals())
             ext_["__strict__"] = True
+            ext_["take"] = lambda a_, k_: ext_["gather"](a_, k_) if not k_ and len(a_) == 2 else (_ for _ in ()).throw(Undecided("take with an axis"))  # np.take(vector, positions)
             w2 = World(ext_, module_env={"exceptions": Obj("exceptions"), "np": Obj("np"), "numpy": Obj("numpy")})
             w2.add_class(sc)
             inst2 = Instance(sc)
